@@ -155,21 +155,21 @@ def check(case):
                        "jumps": len(mc.jumps), "TSclusters": cx.nclusters(b.tsclusters), "transitions_checked": stats["checked"], "with_energy_change": stats["nonzero"]}}
 
 
-def all_cases(quick):
-    out = [{"kind": "all", "setup": s} for s in cx.small_setups(max_sites=10, jn=True) if s["jn_shell"]]
+def all_cases(ctx):
+    step = 2 if ctx.quick else 1
+    out = [{"kind": "all", "setup": s} for s in cx.small_setups(max_sites=10, jn=True, select=lambda n: n % step == 0 and ctx.mine(n // step)) if s["jn_shell"]]
     if EXCLUDE_SELFALIASED:
         _excluded["selfaliased-supercell"] += sum(1 for c in out if cx.selfaliased(c["setup"]))
         out = [c for c in out if not cx.selfaliased(c["setup"])]
-    if quick:
-        out = [c for c in out if cx.build(c["setup"]).nsites <= 8][::3]
+    if ctx.quick:
+        out = [c for c in out if cx.build(c["setup"]).nsites <= 8]
     return out
 
 
 def run(ctx):
     ctx.corpus(check)
-    ex = all_cases(ctx.quick)
-    ctx.cases([c for i, c in enumerate(ex) if ctx.mine(i)], check, label="all-occupations")
-    ctx.note("bounded_exhaustive", "%d catalogue supercells (<=10 mobile sites, with and without vacancy): every occupation, every reported transition" % len(ex))
+    ctx.cases(all_cases(ctx), check, label="all-occupations")
+    ctx.note("bounded_exhaustive", "catalogue supercells (<=10 mobile sites; quick: every second, <=8 sites), with and without vacancy: every occupation, every reported transition")
     ctx.given(cases(max_sites=16), check, quick=300, thorough=6000)
     if not ctx.quick:
         ctx.given(cases(max_sites=24), check, quick=1, thorough=1200, salt=1)
